@@ -72,6 +72,9 @@ K_DISCMAX = "aggregation_discipline_max_jacobian"
 K_CONVEX_INPLACE = "convex_lin_jac_inplace"
 
 NUMS = [-3.0, -2.0, -1.0, -0.5, 0.5, 1.0, 2.0, 3.0]
+# dtype of the evaluation points: MDOFunctions are evaluated at float64 arrays by the drivers, at int64 arrays
+# through DesignSpace.get_current_value() of an all-integer space, and single precision is a plain ndarray too
+XDTYPES = ["float64", "float64", "float64", "int64", "int64", "float32"]
 
 
 # =========================================================================== strategies
@@ -104,16 +107,17 @@ def leaves(draw, m: int, n: int, positive: bool = False, flat: bool = False):
 
 
 @st.composite
-def trees(draw, m: int, n: int, depth: int, vecprod: bool = True, flat: bool = False, root: bool = False):
+def trees(draw, m: int, n: int, depth: int, vecprod: bool = True, flat: bool = False, root: bool = False, sfirst: bool = False):
     """A tree of output dimension m over n inputs.
 
     vecprod=False never multiplies/divides a vector-valued function by a function; flat=True keeps
     scalar functions in the float / 1-D gradient convention (no size-1 array operand); root=True
-    forbids a bare leaf.
+    forbids a bare leaf; sfirst=True also combines a scalar-valued FIRST operand with a vector-valued
+    second function (the result broadcasts to the dimension of the second operand).
     """
     if depth <= 0 or (not root and draw(st.integers(0, 4)) == 0):
         return draw(leaves(m, n, flat=flat))
-    sub = lambda mm, d: trees(mm, n, d, vecprod, flat)  # noqa: E731
+    sub = lambda mm, d: trees(mm, n, d, vecprod, flat, False, sfirst)  # noqa: E731
     arrays_ok = not (flat and m == 1)
     kind = draw(st.sampled_from(["op", "op", "op", "op", "op", "neg", "offset"]))
     if kind == "neg":
@@ -122,6 +126,11 @@ def trees(draw, m: int, n: int, depth: int, vecprod: bool = True, flat: bool = F
         v = draw(st.sampled_from(NUMS)) if (not arrays_ok or draw(st.booleans())) else draw(_lst(st.sampled_from(NUMS), m))
         return {"k": "offset", "a": draw(sub(m, depth - 1)), "v": v}
     op = draw(st.sampled_from(["+", "-", "*", "*", "/", "/"]))
+    if sfirst and m >= 2 and (vecprod or op in "+-") and draw(st.integers(0, 2)) == 0:
+        # scalar-valued first operand, vector-valued second function
+        a = draw(sub(1, depth - 1))
+        b = draw(leaves(m, n, positive=True, flat=flat)) if op == "/" else draw(sub(m, depth - 1))
+        return {"k": "op", "op": op, "a": a, "b": b}
     a = draw(sub(m, depth - 1))
     if op in "*/" and m >= 2:
         choices = ["func", "num", "arr", "arr"] if vecprod else ["num", "arr"]
@@ -146,10 +155,11 @@ def _points(n, k=3):
 @st.composite
 def algebra_cases(draw, max_depth=4, max_n=3, max_m=3):
     n = draw(st.integers(1, max_n))
-    m = draw(st.sampled_from([d for d in (1, 1, 2, 3, n) if d <= max_m]))
+    m = draw(st.sampled_from([d for d in (1, 2, 2, 3, n) if d <= max_m]))
     depth = draw(st.integers(1, max_depth))
-    vecprod = draw(st.integers(0, 2)) == 0
-    return {"n": n, "m": m, "tree": draw(trees(m, n, depth, vecprod, root=True)), "points": draw(_points(n))}
+    vecprod = draw(st.integers(0, 2)) > 0
+    return {"n": n, "m": m, "tree": draw(trees(m, n, depth, vecprod, root=True, sfirst=True)), "points": draw(_points(n)),
+            "xdtype": draw(st.sampled_from(XDTYPES))}
 
 
 def _sym_matrix(draw, n):
@@ -175,6 +185,7 @@ def helper_cases(draw):
         k = draw(st.integers(1, n - 1))
         p["frozen"] = draw(st.permutations(list(range(n))))[:k]
         p["values"] = draw(_lst(st.integers(-8, 8), k))
+        p["tenth"] = draw(st.booleans())  # frozen values v/4 + 0.1: not representable in single precision
         n_pts = n - k
     elif kind == "lincomp":
         n_pts = draw(st.integers(1, 3))
@@ -190,6 +201,7 @@ def helper_cases(draw):
         if kind == "convex":
             p["mask"] = draw(st.one_of(st.none(), _lst(st.booleans(), n)))
     p["points"] = draw(_points(n_pts))
+    p["xdtype"] = draw(st.sampled_from(XDTYPES))
     return p
 
 
@@ -308,7 +320,15 @@ def is_func(node) -> bool:
 
 
 def dim_of(node) -> int:
-    return node["m"] if "m" in node else dim_of(node["a"])
+    if "m" in node:
+        return node["m"]
+    if node["k"] == "op" and is_func(node["b"]):
+        return max(dim_of(node["a"]), dim_of(node["b"]))  # numpy broadcasting of a scalar-valued operand
+    return dim_of(node["a"])
+
+
+def scalar_first_vector_second(node) -> bool:
+    return any(nd["k"] == "op" and is_func(nd["b"]) and dim_of(nd["a"]) < dim_of(nd["b"]) for nd in walk(node))
 
 
 def depth_of(node) -> int:
@@ -392,6 +412,11 @@ class Env:
         return all(a.shape == c.shape and np.array_equal(a, c) for a, c in self.returned)
 
 
+def _as_double(x):
+    """The harness leaves compute in double precision whatever real dtype (int64, float32) they are given."""
+    return x.astype(float) if x.dtype.kind in "iuf" and x.dtype != np.float64 else x
+
+
 def build(node, n: int, env: Env):
     from gemseo.core.mdo_functions.mdo_function import MDOFunction
     from gemseo.core.mdo_functions.mdo_linear_function import MDOLinearFunction
@@ -404,11 +429,11 @@ def build(node, n: int, env: Env):
         scalar = node["form"] == "float1d"
 
         def func(x, node=node, scalar=scalar):
-            v, _ = poly_eval(node, x)
+            v, _ = poly_eval(node, _as_double(x))
             return env.log(v[0] if scalar else v)
 
         def jac(x, node=node, scalar=scalar):
-            _, j = poly_eval(node, x)
+            _, j = poly_eval(node, _as_double(x))
             return env.log(j[0] if scalar else j)
 
         f = MDOFunction(func, name, jac=jac, dim=node["m"])
@@ -499,6 +524,18 @@ def grid(pt):
     return np.array(pt, dtype=float) / 4.0
 
 
+def typed_point(pt, p):
+    """(array given to GEMSEO, the same point in float64 for the reference); int64 points are the drawn integers."""
+    kind = p.get("xdtype", "float64")
+    if kind == "int64":
+        x = np.array(pt, dtype=np.int64)
+    elif kind == "float32":
+        x = grid(pt).astype(np.float32)  # quarters are exact in single precision
+    else:
+        x = grid(pt)
+    return x, x.astype(float)
+
+
 def operands_snapshot(env, x, with_jac):
     """Values (and Jacobians) of every sub-function of the tree at x."""
     out = []
@@ -530,12 +567,15 @@ def case_algebra(p, ctx):
     jac_ok = not (p7 and ctx.known(K_P7))
     state = leaf_state(env)
     snap = snapshot(state)
-    ctx.check(root.dim == m, "declared_dim", f"declared dim {root.dim}, the tree has dimension {m}")
+    sfirst = scalar_first_vector_second(tree)
+    if not sfirst:  # the operators declare the dimension of their first operand
+        ctx.check(root.dim == m, "declared_dim", f"declared dim {root.dim}, the tree has dimension {m}")
+    ctx.cls("points_" + p.get("xdtype", "float64"))
     for pt in p["points"]:
-        x = grid(pt)
+        x, x_ref = typed_point(pt, p)
         x_copy = x.copy()
         mag = Mag()
-        ref_v, ref_j = ref_eval(tree, x, mag)
+        ref_v, ref_j = ref_eval(tree, x_ref, mag)
         tol = TOL * mag.v
         before = operands_snapshot(env, x, jac_ok)
         check_value(ctx, "value", root, x, m, ref_v, tol, "composed function")
@@ -553,6 +593,10 @@ def case_algebra(p, ctx):
         ctx.cls("dim_out_equals_dim_in>=2")
     if p7:
         ctx.cls("vector_function_times_or_over_function")
+    if sfirst:
+        ctx.cls("scalar_first_vector_second")
+        if any(nd["k"] == "op" and nd["op"] in "*/" and is_func(nd["b"]) and dim_of(nd["a"]) < dim_of(nd["b"]) for nd in walk(tree)):
+            ctx.cls("scalar_function_times_or_over_vector_function_dim_in_" + ("equal" if m == n else "differs"))
     if any(nd["k"] == "op" and nd["op"] in "*/" and is_func(nd["b"]) and dim_of(nd["a"]) == 1 for nd in walk(tree)) and jac_ok:
         ctx.cls("scalar_function_product_or_quotient_checked")
     for nd in walk(tree):
@@ -619,7 +663,7 @@ def case_helpers(p, ctx):
     state = leaf_state(env)
     snap = snapshot(state)
     full = jac_ok
-    ctx.cls("helper_" + kind)
+    ctx.cls("helper_" + kind, "helper_points_" + p.get("xdtype", "float64"))
 
     def ref_at(x, node=tree):
         mag = Mag()
@@ -630,19 +674,20 @@ def case_helpers(p, ctx):
         from gemseo.core.mdo_functions.function_restriction import FunctionRestriction
 
         frozen = np.array(p["frozen"], dtype=int)
-        values = grid(p["values"])
+        values = grid(p["values"]) + (0.1 if p.get("tenth") else 0.0)
         active = [i for i in range(n) if i not in p["frozen"]]
         g = FunctionRestriction(frozen, values, n, f, name="r")
         ctx.check(g.dim == m, "restriction", f"declared dim {g.dim}, expected {m}")
         for pt in p["points"]:
-            xs = grid(pt)
+            xs_typed, xs = typed_point(pt, p)
             x = np.empty(n)
             x[active] = xs
             x[frozen] = values
             v, j, s = ref_at(x)
-            check_value(ctx, "restriction", g, xs, m, v, TOL * s, "FunctionRestriction")
+            check_value(ctx, "restriction", g, xs_typed, m, v, TOL * s, "FunctionRestriction")
             if jac_ok:
-                check_jac(ctx, "restriction", g, xs, m, len(active), j[:, active], TOL * s, "FunctionRestriction")
+                check_jac(ctx, "restriction", g, xs_typed, m, len(active), j[:, active], TOL * s, "FunctionRestriction")
+        ctx.check(np.array_equal(values, grid(p["values"]) + (0.1 if p.get("tenth") else 0.0)), "operands_unmodified", "the frozen values were modified")
     elif kind == "lincomp":
         from gemseo.core.mdo_functions.linear_composite_function import LinearCompositeFunction
 
@@ -651,10 +696,10 @@ def case_helpers(p, ctx):
         n_in = a.shape[1]
         two_d = None
         for pt in p["points"]:
-            xs = grid(pt)
+            xs_typed, xs = typed_point(pt, p)
             v, j, s = ref_at(a @ xs)
             s = max(s, float(np.max(np.abs(j @ a))) if j.size else 1.0)
-            check_value(ctx, "linear_composite", g, xs, m, v, TOL * s, "LinearCompositeFunction")
+            check_value(ctx, "linear_composite", g, xs_typed, m, v, TOL * s, "LinearCompositeFunction")
             if jac_ok:
                 if two_d is None:
                     two_d = np.ndim(f.jac(a @ xs)) == 2
@@ -663,7 +708,7 @@ def case_helpers(p, ctx):
                         if ctx.known(K_LINCOMP):
                             jac_ok = full = False
                             continue
-                check_jac(ctx, "linear_composite", g, xs, m, n_in, j @ a, TOL * s, "LinearCompositeFunction")
+                check_jac(ctx, "linear_composite", g, xs_typed, m, n_in, j @ a, TOL * s, "LinearCompositeFunction")
     elif kind == "concat":
         from gemseo.core.mdo_functions.concatenate import Concatenate
 
@@ -676,12 +721,12 @@ def case_helpers(p, ctx):
         mt = sum(dim_of(nd) for nd in nodes)
         ctx.check(g.dim == mt, "concatenate", f"declared dim {g.dim}, expected {mt}")
         for pt in p["points"]:
-            x = grid(pt)
+            x_typed, x = typed_point(pt, p)
             parts = [ref_at(x, nd) for nd in nodes]
             s = max(q[2] for q in parts)
-            check_value(ctx, "concatenate", g, x, mt, np.concatenate([q[0] for q in parts]), TOL * s, "Concatenate")
+            check_value(ctx, "concatenate", g, x_typed, mt, np.concatenate([q[0] for q in parts]), TOL * s, "Concatenate")
             if jac_ok:
-                check_jac(ctx, "concatenate", g, x, mt, n, np.vstack([q[1] for q in parts]), TOL * s, "Concatenate")
+                check_jac(ctx, "concatenate", g, x_typed, mt, n, np.vstack([q[1] for q in parts]), TOL * s, "Concatenate")
         m = mt
     elif kind == "taylor1":
         from gemseo.core.mdo_functions.taylor_polynomials import compute_linear_approximation
@@ -696,13 +741,13 @@ def case_helpers(p, ctx):
         check_jac(ctx, "taylor1_at_point", g, x0, m, n, j0, TOL * s0, "first-order Taylor polynomial at the expansion point")
         degree = tree_degree(tree)
         for pt in p["points"]:
-            x = grid(pt)
+            x_typed, x = typed_point(pt, p)
             s = s0 * (1 + float(np.max(np.abs(x))) + float(np.max(np.abs(x0)))) * n
-            check_value(ctx, "taylor1_formula", g, x, m, v0 + j0 @ (x - x0), TOL * s, "first-order Taylor polynomial")
-            check_jac(ctx, "taylor1_formula", g, x, m, n, j0, TOL * s0, "first-order Taylor polynomial")
+            check_value(ctx, "taylor1_formula", g, x_typed, m, v0 + j0 @ (x - x0), TOL * s, "first-order Taylor polynomial")
+            check_jac(ctx, "taylor1_formula", g, x_typed, m, n, j0, TOL * s0, "first-order Taylor polynomial")
             if degree is not None and degree <= 1:
                 v, j, s1 = ref_at(x)
-                check_value(ctx, "taylor1_exact_on_linear", g, x, m, v, TOL * max(s, s1), "first-order Taylor polynomial of a linear function")
+                check_value(ctx, "taylor1_exact_on_linear", g, x_typed, m, v, TOL * max(s, s1), "first-order Taylor polynomial of a linear function")
         if degree is not None and degree <= 1:
             ctx.cls("taylor1_linear_operand")
     elif kind == "taylor2":
@@ -724,16 +769,16 @@ def case_helpers(p, ctx):
             exact_h = None
         v0, j0, s0 = ref_at(x0)
         g = compute_quadratic_approximation(f, x0, hess)
-        for x in [x0] + [grid(pt) for pt in p["points"]]:
+        for x_typed, x in [(x0, x0)] + [typed_point(pt, p) for pt in p["points"]]:
             dx = x - x0
             r = 1 + float(np.max(np.abs(x))) + float(np.max(np.abs(x0)))
             s = (s0 + float(np.max(np.abs(hess))) + 1) * r * r * n * n
-            check_value(ctx, "taylor2_formula", g, x, 1, v0 + j0 @ dx + 0.5 * dx @ hess @ dx, TOL * s, "second-order Taylor polynomial")
-            check_jac(ctx, "taylor2_formula", g, x, 1, n, j0 + (hess @ dx).reshape(1, -1), TOL * s, "second-order Taylor polynomial")
+            check_value(ctx, "taylor2_formula", g, x_typed, 1, v0 + j0 @ dx + 0.5 * dx @ hess @ dx, TOL * s, "second-order Taylor polynomial")
+            check_jac(ctx, "taylor2_formula", g, x_typed, 1, n, j0 + (hess @ dx).reshape(1, -1), TOL * s, "second-order Taylor polynomial")
             if exact_h is not None:
                 v, j, _ = ref_at(x)
-                check_value(ctx, "taylor2_exact_on_quadratic", g, x, 1, v, TOL * s, "second-order Taylor polynomial of a quadratic function")
-                check_jac(ctx, "taylor2_exact_on_quadratic", g, x, 1, n, j, TOL * s, "second-order Taylor polynomial of a quadratic function")
+                check_value(ctx, "taylor2_exact_on_quadratic", g, x_typed, 1, v, TOL * s, "second-order Taylor polynomial of a quadratic function")
+                check_jac(ctx, "taylor2_exact_on_quadratic", g, x_typed, 1, n, j, TOL * s, "second-order Taylor polynomial of a quadratic function")
     else:
         # ConvexLinearApprox.jac writes into the array returned by the operand's jac
         known_inplace = ctx.known(K_CONVEX_INPLACE)
@@ -817,7 +862,7 @@ def convex_linear(p, ctx, f, tree, env, jac_ok):
     else:
         check_jac(ctx, "convex_at_point", g, x0, m, n, j0, TOL * s0, "convex linearisation at the expansion point")
     for pt in p["points"]:
-        x = grid(pt)
+        x_typed, x = typed_point(pt, p)
         merged = np.where(mask, x0, x)
         mag = Mag()
         vm, jm = ref_eval(tree, merged, mag)
@@ -826,12 +871,12 @@ def convex_linear(p, ctx, f, tree, env, jac_ok):
             step = (x - x0)[mask]
             ref_j = jm.copy()
             ref_j[:, mask] = sel
-            check_value(ctx, "convex_formula", g, x, m, vm + sel @ step, TOL * s, "convex linearisation without negative partial derivative")
-            check_jac(ctx, "convex_formula", g, x, m, n, ref_j, TOL * s, "convex linearisation without negative partial derivative")
+            check_value(ctx, "convex_formula", g, x_typed, m, vm + sel @ step, TOL * s, "convex linearisation without negative partial derivative")
+            check_jac(ctx, "convex_formula", g, x_typed, m, n, ref_j, TOL * s, "convex linearisation without negative partial derivative")
         elif np.all(np.abs((x - x0)[mask]) >= 0.25) and np.all(np.abs(x[mask]) >= 0.25):
             # the Jacobian must be the derivative of what the function evaluates (complex step through
             # the function itself; exact to rounding on rational functions)
-            raw = g.jac(x)
+            raw = g.jac(x_typed)
             gj = norm_jac(raw, m, n)
             ctx.check(gj is not None, "convex_self_consistent", f"Jacobian has shape {np.shape(raw)}, expected ({m},{n})")
             big = float(np.max(np.abs(gj))) if gj.size else 1.0
